@@ -20,7 +20,7 @@ pub fn def() -> PropDef {
 }
 
 fn streams(t: Tier) -> Vec<StreamDef> {
-    vec![st("flagwords", t.n(65536, 65536 * 4, 60, 65536), true), st("hostile", t.n(40_000, 2_000_000, 40, 10_000), false), st("threads", t.n(64, 1600, 1, 64), false), st("big", t.n(200, 4000, 0, 200), false), st("vendor_grid", t.n(wire::VENDOR_GRID, wire::VENDOR_GRID, 0, wire::VENDOR_GRID), true)]
+    vec![st("flagwords", t.n(65536, 65536 * 4, 60, 65536), true), st("hostile", t.n(40_000, 2_000_000, 40, 10_000), false), st("threads", t.n(64, 1600, 1, 64), false), st("big", t.n(200, 4000, 0, 200), false), st("vendor_grid", t.n(wire::VENDOR_GRID, wire::VENDOR_GRID, 0, wire::VENDOR_GRID), true), st("dict_grid", t.n(wire::dict_grid_count(), wire::dict_grid_count(), 40, wire::dict_grid_count().min(200_000)).min(wire::dict_grid_count()), wire::dict_grid_exhaustive(t == Tier::Quick || t == Tier::Thorough))]
 }
 
 fn floors(t: Tier) -> Vec<(String, u64)> {
@@ -244,6 +244,11 @@ fn run(ctx: &mut Ctx) {
         "vendor_grid" => {
             let idx = ctx.idx;
             let b = wire::vendor_grid_case(&mut ctx.rng, idx);
+            judge(ctx, &b);
+        }
+        "dict_grid" => {
+            let idx = ctx.idx;
+            let b = wire::dict_grid_case(&mut ctx.rng, idx);
             judge(ctx, &b);
         }
         "threads" => thread_case(ctx),
